@@ -18,7 +18,7 @@ COMPONENTS = {"real": ["ECAgent.Core.SystemManager.add_system/remove_system/exec
                        "ECAgent.Collectors.Collector (default priority)"],
               "stub": ["System.execute / Collector.collect bodies are harness recorders"]}
 PROBES = ["tie_of_3", "readd_after_remove", "insert_head", "insert_middle", "insert_tail",
-          "negative_next_to_collector", "dup_rejected", "unknown_rejected", "extreme_priority"]
+          "negative_next_to_collector", "dup_rejected", "unknown_rejected", "extreme_priority", "same_object_reregistered"]
 TECHNIQUE = "deterministic simulation: seeded registration/removal histories with injected rejections vs a sorted-list reference, per-timestep execution log oracle"
 LEVEL_TEXT = ("Seeded search over registration histories; after every timestep the execution order recorded from the real "
               "scheduler must equal the reference (descending priority, registration order among equals) and after every "
@@ -53,7 +53,7 @@ def generate(rng, tier):
     for _ in range(rng.randint(5, 90 if big else 60)):
         r = rng.random()
         if r < 0.4:
-            op = {"op": "add", "k": rng.randrange(n)}
+            op = {"op": "add", "k": rng.randrange(n), "same_object": rng.random() < 0.5}
             if rng.random() < 0.3:
                 op["dup_prio"] = gen_prio(rng)
             ops.append(op)
@@ -85,6 +85,7 @@ def execute(sc, ctx):
     pool = sc["pool"]
     live = {}
     ever_removed = set()
+    retired = {}
     removed_since_step = False
     removal_then_step = False
     tie_step = False
@@ -109,7 +110,11 @@ def execute(sc, ctx):
                 ctx.event("add_rejected", sid)
                 shape.append(["dup", len(ref.q)])
             else:
-                obj = Rec(spec, model, w) if spec["kind"] == "system" else RecCollector(spec, model, w)
+                if op.get("same_object") and sid in retired:
+                    obj = retired[sid]          # the very same System object is registered again
+                    ctx.probe("same_object_reregistered")
+                else:
+                    obj = Rec(spec, model, w) if spec["kind"] == "system" else RecCollector(spec, model, w)
                 ctx.expect_ok("add", sm.add_system, obj)
                 live[sid] = obj
                 pos = ref.add(spec)
@@ -126,6 +131,7 @@ def execute(sc, ctx):
             if ref.has(sid):
                 ctx.expect_ok("remove", sm.remove_system, sid)
                 pos = ref.remove(sid)
+                retired[sid] = live[sid]
                 del live[sid]
                 ever_removed.add(sid)
                 removed_since_step = True
